@@ -87,3 +87,79 @@ def check_stateless(ctx, roots, rule="STATELESS", mutation_only=False):
                        f"uses the module-level {bad[1] if bad else ''} `{bad[0].id if bad else ''}` that is filled at run time: the result depends on what was analysed before in the same "
                        "process (e.g. a cache keyed too coarsely hands a grid the wave numbers of another grid)")
     return n_fn
+
+
+# ---------------------------------------------------------------------------------------------------------------------
+# LATEBIND — functions created in a loop that read the loop's variables when they are *called*
+def late_binding_sites(tree):
+    """[(loop, function node, names)] for lambdas / nested functions defined in the body of a `for` loop that read a variable
+    the loop rebinds (its target, or a name assigned in its body) as a free variable — not captured through a default
+    argument and not called on the spot.  When such a function is kept (stored in a table, appended, returned) every copy
+    sees the value of the *last* iteration."""
+    out = []
+    for loop in ast.walk(tree):
+        if not isinstance(loop, (ast.For, ast.AsyncFor)):
+            continue
+        rebound = {x.id for x in ast.walk(loop.target) if isinstance(x, ast.Name)}
+        for st in loop.body:
+            for x in ast.walk(st):
+                if isinstance(x, ast.Name) and isinstance(x.ctx, ast.Store):
+                    rebound.add(x.id)
+        called_now = {id(c.func) for st in loop.body for c in ast.walk(st) if isinstance(c, ast.Call)}
+        for st in loop.body:
+            for fn in ast.walk(st):
+                if not isinstance(fn, (ast.Lambda, ast.FunctionDef)):
+                    continue
+                if isinstance(fn, ast.Lambda) and id(fn) in called_now:
+                    continue
+                a = fn.args
+                params = {p.arg for p in a.posonlyargs + a.args + a.kwonlyargs} | ({a.vararg.arg} if a.vararg else set()) | ({a.kwarg.arg} if a.kwarg else set())
+                body_nodes = [fn.body] if isinstance(fn, ast.Lambda) else fn.body
+                local = {x.id for b in body_nodes for x in ast.walk(b) if isinstance(x, ast.Name) and isinstance(x.ctx, ast.Store)}
+                free = {x.id for b in body_nodes for x in ast.walk(b) if isinstance(x, ast.Name) and isinstance(x.ctx, ast.Load)} - params - local
+                if isinstance(fn, ast.FunctionDef):
+                    rebound_here = rebound - {fn.name}
+                    # a nested def that is only called inside the same iteration is fine
+                    uses = [x for s2 in loop.body for x in ast.walk(s2) if isinstance(x, ast.Name) and x.id == fn.name and isinstance(x.ctx, ast.Load)]
+                    if uses and all(id(u) in called_now for u in uses):
+                        continue
+                else:
+                    rebound_here = rebound
+                hit = sorted(free & rebound_here)
+                if hit:
+                    out.append((loop, fn, hit))
+    return out
+
+
+_LATEBIND_FIXTURE = """
+TABLE = {}
+for _name, _rule in [("a", min), ("b", max)]:
+    TABLE[_name] = lambda data: float(_rule(data))
+OK = {}
+for _name, _rule in [("a", min), ("b", max)]:
+    OK[_name] = lambda data, _rule=_rule: float(_rule(data))
+"""
+
+
+def check_late_binding(ctx, module_names, rule="LATEBIND"):
+    from ..model import AnalysisError
+
+    fx = late_binding_sites(ast.parse(_LATEBIND_FIXTURE))
+    if len(fx) != 1 or fx[0][2] != ["_rule"]:
+        raise AnalysisError("LATEBIND fixture was not flagged exactly once — rule is blind", rule)
+    ctx.info(rule, "fixture:late-binding", None, "positive example flagged (rule is live)")
+    n = 0
+    for mn in module_names:
+        mod = ctx.model.modules.get(mn)
+        if mod is None:
+            continue
+        n += 1
+        sites = late_binding_sites(mod.tree)
+        if sites:
+            for loop, fn, names in sites:
+                ctx.violate(rule, f"{mn}:{getattr(fn, 'lineno', 0)}", fn,
+                            f"`{U(fn)[:70]}` is created in a loop and reads the loop variable(s) {names} only when it is called: every function kept from this loop uses the value of the "
+                            "last iteration (all entries of a dispatch table behave like the last one)")
+        else:
+            ctx.hold(rule, mn, None, "no function created in a loop captures a loop variable by name")
+    return n
